@@ -190,7 +190,7 @@ def explore(job):
                         fsb._apply(op)
                     if t2:
                         op = j2[k2]
-                        fsb._apply(("write", op[1], op[2], op[3][:t2]))
+                        fsb._apply(("write", op[1], op[2], op[3][:t2], op[4]))
                     fsb.record = True
                     out["chain_cuts"] += 1
                     sig2, det2 = resume_on(base, prob, fsb, refd)
